@@ -306,6 +306,8 @@ class _Real(_World):
                         and event is not world.cur_event:
                     world.log.append(["other-event", world.depth])
                 world.deliver(self.idx, t, _canon(event.content), ts)
+                # what notify() returns is nobody's business: some listeners return something truthy
+                return [None, True, 7, "handled"][self.idx % 4]
 
         self.L = L
         self.listeners = [L(i) for i in range(NL)]
